@@ -227,6 +227,10 @@ fn const_j<'tcx>(
             }
         }
     }
+    if let Some(sd) = c.check_static_ptr(tcx) {
+        extra.push(("static", J::s(cx.uid(sd))));
+        extra.push(("static_name", J::s(cx.path(sd))));
+    }
     if let Some(si) = c.const_.try_eval_scalar_int_like(tcx, typing_env) {
         extra.push(("int", J::s(si)));
     }
